@@ -28,7 +28,9 @@
 (define-fun empty_marks () (Array Any Bool) ((as const (Array Any Bool)) false))
 (define-fun marks_ptr ((v cty.Value)) Int (cty.marker.marks (unbox<cty.marker> (cty.Value.v v))))
 (define-fun fmarks ((p Int)) (Array Any Bool) (MapC<Any~Unit>.dom (select F.MapC<Any~Unit> p)))
-(define-fun marks_of ((v cty.Value)) (Array Any Bool) (ite (is_marked v) (fmarks (marks_ptr v)) empty_marks))
+; declared (with its definition as an axiom) so that (select (marks_of v) k) can be a quantifier pattern
+(declare-fun marks_of (cty.Value) (Array Any Bool))
+(assert (forall ((v cty.Value)) (! (= (marks_of v) (ite (is_marked v) (fmarks (marks_ptr v)) empty_marks)) :pattern ((marks_of v)))))
 ; one marker layer, non-empty mark set
 (define-fun wf_marks ((v cty.Value)) Bool
   (=> (is_marked v)
@@ -347,3 +349,71 @@
 ; decoded value: what every successful decoder result satisfies with respect to the requested type
 (define-fun decoded_ok ((v cty.Value) (ty cty.Type)) Bool
   (and (conforms (vty v) ty) (wf_ty (vty v)) (wf_marks v) (not (has_opt (vty v)))))
+
+; ---- top-level representation invariant of a value (C06): payload constructor dictated by the type ----
+(define-fun unk_ptr ((v cty.Value)) Int (unbox<*cty.unknownType> (inner_v v)))
+(define-fun num_ptr ((v cty.Value)) Int (unbox<*math/big.Float> (inner_v v)))
+(define-fun wf_payload ((v cty.Value)) Bool
+  (let ((t (vty v)) (u (inner_v v)))
+    (or (= u nil.Any)
+        (and ((_ is box<*cty.unknownType>) u) (not (= (unbox<*cty.unknownType> u) 0)))
+        (and (is_bool_ty t) ((_ is box<bool>) u))
+        (and (is_number_ty t) ((_ is box<*math/big.Float>) u) (not (= (unbox<*math/big.Float> u) 0)))
+        (and (is_string_ty t) ((_ is box<string>) u))
+        (and (is_list_ty t) ((_ is box<<>Any>) u) (slice.ok (unbox<<>Any> u)))
+        (and (is_tuple_ty t) ((_ is box<<>Any>) u) (slice.ok (unbox<<>Any> u)) (= (Slice.len (unbox<<>Any> u)) (tuple_len t)))
+        (and (is_map_ty t) ((_ is box<map<string>Any>) u) (not (= (unbox<map<string>Any> u) 0)) (MapC<String~Any>.ok (select F.MapC<String~Any> (unbox<map<string>Any> u))))
+        (and (is_obj_ty t) ((_ is box<map<string>Any>) u) (not (= (unbox<map<string>Any> u) 0)) (MapC<String~Any>.ok (select F.MapC<String~Any> (unbox<map<string>Any> u)))
+             (= (MapC<String~Any>.dom (select F.MapC<String~Any> (unbox<map<string>Any> u))) (obj_dom t)))
+        (and (is_set_ty t) ((_ is box<set.Set<Any>>) u))
+        (and (is_capsule_ty t) (not ((_ is box<cty.marker>) u))))))
+(define-fun wf_val ((v cty.Value)) Bool (and (wf_marks v) (wf_ty (vty v)) (wf_payload v)))
+(define-fun pl_seq_at ((v cty.Value) (i Int)) Any (select (select F.Arr<Any> (Slice.ptr (pl_seq v))) (+ (Slice.off (pl_seq v)) i)))
+(define-fun pl_mapc ((v cty.Value)) MapC<String~Any> (select F.MapC<String~Any> (pl_map v)))
+; math/big.Float as seen by the code: uninterpreted observations of the (frozen) number object
+(declare-fun bf.int64 (math/big.Float) Int)   ; result of Int64()
+(declare-fun bf.acc64 (math/big.Float) Int)   ; accuracy of Int64(): 0 = Exact, -1 = Below, 1 = Above
+(define-fun bf_of ((v cty.Value)) math/big.Float (select F.math/big.Float (num_ptr v)))
+; a known, non-null number that is a non-negative integer fitting int64
+(define-fun is_index_num ((v cty.Value)) Bool (and (= (bf.acc64 (bf_of v)) 0) (>= (bf.int64 (bf_of v)) 0)))
+
+; ---- deep representation invariant (C06): every nested member is a well-formed value of the
+; ---- declared element / attribute type. Fuelled recursive definition.
+(define-fun mkval ((t cty.Type) (u Any)) cty.Value (mk.cty.Value t u))
+(declare-fun wf_deepF (Fuel cty.Value) Bool)
+(define-fun wf_deep ((v cty.Value)) Bool (wf_deepF (FS (FS FZ)) v))
+(assert (forall ((f Fuel) (v cty.Value)) (! (= (wf_deepF (FS f) v) (wf_deepF f v)) :pattern ((wf_deepF (FS f) v)))))
+; the members part is a declared function of the raw payload so that its quantifier patterns do not
+; contain the if-then-else of the marker unwrapping
+(declare-fun wf_members (Fuel cty.Type Any) Bool)
+(define-fun raw_seq_at ((u Any) (i Int)) Any (select (select F.Arr<Any> (Slice.ptr (unbox<<>Any> u))) (+ (Slice.off (unbox<<>Any> u)) i)))
+(define-fun raw_mapc ((u Any)) MapC<String~Any> (select F.MapC<String~Any> (unbox<map<string>Any> u)))
+(assert (forall ((f Fuel) (t cty.Type) (u Any)) (! (= (wf_members f t u)
+    (and (=> (is_list_ty t) (forall ((j Int)) (! (=> (and (trig j) (<= 0 j) (< j (Slice.len (unbox<<>Any> u)))) (wf_deepF f (mkval (elem_ty t) (raw_seq_at u j)))) :pattern ((trig j)))))
+         (=> (is_tuple_ty t) (forall ((j Int)) (! (=> (and (trig j) (<= 0 j) (< j (Slice.len (unbox<<>Any> u)))) (wf_deepF f (mkval (tuple_at t j) (raw_seq_at u j)))) :pattern ((trig j)))))
+         (=> (is_map_ty t) (forall ((k String)) (! (=> (select (MapC<String~Any>.dom (raw_mapc u)) k) (wf_deepF f (mkval (elem_ty t) (select (MapC<String~Any>.val (raw_mapc u)) k))))
+                                                 :pattern ((select (MapC<String~Any>.dom (raw_mapc u)) k)))))
+         (=> (is_obj_ty t) (forall ((k String)) (! (=> (select (MapC<String~Any>.dom (raw_mapc u)) k) (wf_deepF f (mkval (obj_aty t k) (select (MapC<String~Any>.val (raw_mapc u)) k))))
+                                                 :pattern ((select (MapC<String~Any>.dom (raw_mapc u)) k)))))))
+  :pattern ((wf_members f t u)))))
+(assert (forall ((f Fuel) (v cty.Value)) (! (= (wf_deepF (FS f) v)
+    (and (wf_val v) (=> (and (is_known v) (not (is_null v))) (wf_members f (vty v) (inner_v v)))))
+  :pattern ((wf_deepF (FS f) v)))))
+; marks do not matter for the members: the invariant of a marked value is that of its unmarked form
+(assert (forall ((f Fuel) (v cty.Value)) (! (=> (and (wf_deepF f v) (is_marked v)) (wf_deepF f (mk.cty.Value (cty.Value.ty v) (cty.marker.realV (unbox<cty.marker> (cty.Value.v v))))))
+  :pattern ((wf_deepF f v)))))
+; a payload element with its marker (if any) removed
+(define-fun strip ((a Any)) Any (ite ((_ is box<cty.marker>) a) (cty.marker.realV (unbox<cty.marker> a)) a))
+; Meta-lemma M4 (assumed): well-formedness depends on the type only up to structural type equality
+(assert (forall ((f Fuel) (t1 cty.Type) (t2 cty.Type) (u Any)) (! (=> (and (wf_deepF f (mkval t1 u)) (ty_eq t1 t2) (wf_ty t2)) (wf_deepF f (mkval t2 u)))
+  :pattern ((wf_deepF f (mkval t1 u)) (ty_eq t1 t2)))))
+
+; ---- index / attribute vocabulary (C02) -------------------------------------------------------
+(define-fun str_of ((v cty.Value)) String (unbox<string> (inner_v v)))
+(define-fun kn ((v cty.Value)) Bool (and (is_known v) (not (is_null v))))     ; known and not null
+(define-fun seq_has ((val cty.Value) (key cty.Value)) Bool (and (is_index_num key) (< (bf.int64 (bf_of key)) (Slice.len (pl_seq val)))))
+(define-fun tup_has ((val cty.Value) (key cty.Value)) Bool (and (is_index_num key) (< (bf.int64 (bf_of key)) (tuple_len (vty val)))))
+(define-fun map_has ((val cty.Value) (key cty.Value)) Bool (select (MapC<String~Any>.dom (pl_mapc val)) (str_of key)))
+(define-fun bool_payload ((v cty.Value) (b Bool)) Bool (and (is_bool_ty (vty v)) (= (inner_v v) (box<bool> b))))
+(define-fun bool_of ((v cty.Value)) Bool (unbox<bool> (inner_v v)))
+(define-fun is_unk_payload ((v cty.Value)) Bool ((_ is box<*cty.unknownType>) (cty.Value.v v)))
